@@ -619,4 +619,244 @@ def run (h : MHeap) : List Op → List StepObs
     let (h', out, calls) := step h op
     ⟨out, calls, observe h'⟩ :: run h' ops
 
+/-! ### the arguments object (type_arguments.go) – a separate small history language
+
+  One non-strict call `f(x, y)` with two arguments: the arguments object has the index properties
+  "0", "1" (names 15, 16, mode 0o111), `length` (5, 0o101) and `callee` (17, 0o101); `map[i]` says
+  whether `indexOfParameterName[i]` is still non-empty, `env[i]` is the current value of the i-th
+  parameter binding. -/
+
+structure ArgState (P : Type) where
+  o : Obj P
+  map : List Bool
+  env : List Val
+deriving DecidableEq, Repr
+
+inductive AOp
+  | param (i : Nat) (v : Val)                 -- x = v / y = v
+  | put (n : Name) (v : Val)                  -- arguments[n] = v
+  | del (n : Name)                            -- delete arguments[n]
+  | defn (n : Name) (d : DescArg)             -- Object.defineProperty(arguments, n, d)
+  | freeze | seal | preventExt
+deriving DecidableEq, Repr
+
+structure AObs where
+  out : Outcome
+  env : List Val
+  ext : Bool
+  isSealed : Bool
+  isFrozen : Bool
+  names : List Name
+  per : List NameObs
+deriving DecidableEq, Repr
+
+def argIndex (n : Name) : Option Nat := if n = 15 then some 0 else if n = 16 then some 1 else none
+
+def argNames : List Name := [15, 16, 5, 17, 0]
+
+/-- type_arguments.go:42 argumentsObject.get: (value, exists) -/
+def argMapped (s : ArgState P) (n : Name) : Option Val :=
+  match argIndex n with
+  | some i => if s.map.getD i false then some (s.env.getD i 0) else none
+  | none => none
+
+/-- cmpl_evaluate.go:26-66 + type_arguments.go:7-26: the arguments object of `f(x,y)` called with (v0, v1) -/
+def argInit (v0 v1 : Val) : ArgState MProp :=
+  { o := ⟨none, true,
+      [(15, ⟨.val 0, ⟨.on, .on, .on⟩⟩), (16, ⟨.val 0, ⟨.on, .on, .on⟩⟩),
+       (5, ⟨.val 5, ⟨.on, .off, .on⟩⟩), (17, ⟨.val 997, ⟨.on, .off, .on⟩⟩)]⟩
+    map := [true, true]
+    env := [v0, v1] }
+
+/-- type_arguments.go:72 argumentsGetOwnProperty -/
+def argGetOwn (s : ArgState MProp) (n : Name) : Option MProp :=
+  match alookup n s.o.props with
+  | none => none
+  | some prop =>
+    match argMapped s n with
+    | some v => some { prop with value := .val v }
+    | none => some prop
+
+/-- type_arguments.go:65 argumentsGet (the prototype is Object.prototype: nothing inherited for these names) -/
+def argGet (s : ArgState MProp) (n : Name) : Val :=
+  match argMapped s n with
+  | some v => v
+  | none =>
+    match alookup n s.o.props with
+    | some ⟨.val v, _⟩ => v
+    | some ⟨.gs (.fn k) _, _⟩ => getterResult k 0
+    | _ => 0
+
+def listSet (l : List α) (i : Nat) (x : α) : List α := l.set i x
+
+/-- type_arguments.go:80 argumentsDefineOwnProperty; (state, accepted) -/
+def argDefineOwn (s : ArgState MProp) (n : Name) (d : MProp) : ArgState MProp × Bool :=
+  match argMapped s n with
+  | some _ =>
+    match defineOwn s.o n d with
+    | none => (s, false)
+    | some o' =>
+      let s1 := { s with o := o' }
+      match d.value, argIndex n with
+      | .val v, some i => ({ s1 with env := s1.env.set i v }, true)      -- argumentsObject.put
+      | _, _ => (s1, true)
+  | none =>
+    match defineOwn s.o n d with
+    | none => (s, false)
+    | some o' => ({ s with o := o' }, true)
+
+/-- type_arguments.go:93 argumentsDelete (throw = false: sloppy code) -/
+def argDelete (s : ArgState MProp) (n : Name) : ArgState MProp × Bool :=
+  match alookup n s.o.props with
+  | none => (s, true)
+  | some prop =>
+    if prop.configurable then
+      let s1 := { s with o := { s.o with props := aerase n s.o.props } }
+      match argMapped s n, argIndex n with
+      | some _, some i => ({ s1 with map := s1.map.set i false }, true)
+      | _, _ => (s1, true)
+    else (s, false)
+
+/-- object_class.go:235 objectPut with the class hooks of classArguments (getOwnProperty, defineOwnProperty);
+    throw = false.  Nothing relevant is inherited. -/
+def argPut (s : ArgState MProp) (n : Name) (v : Val) : ArgState MProp × List Call :=
+  match argGetOwn s n with
+  | some prop =>
+    match prop.value with
+    | .gs _ sl => (match slotFn sl with | some k => (s, [(k, 0, v)]) | none => (s, []))
+    | _ => if prop.writable then ((argDefineOwn s n { prop with value := .val v }).1, []) else (s, [])
+  | none => if s.o.ext then ((argDefineOwn s n ⟨.val v, ⟨.on, .on, .on⟩⟩).1, []) else (s, [])
+
+/-- builtin_object.go:281 freeze with the class hooks; (state, threw) -/
+def argFreezeLoop (s : ArgState MProp) : List Name → ArgState MProp × Bool
+  | [] => (s, false)
+  | n :: ns =>
+    match argGetOwn s n with
+    | none => argFreezeLoop s ns
+    | some prop =>
+      let u1 := prop.isDataDescriptor && prop.writable
+      let p1 := if u1 then prop.writeOff else prop
+      let u2 := p1.configurable
+      let p2 := if u2 then p1.configureOff else p1
+      if u1 || u2 then
+        match argDefineOwn s n p2 with
+        | (_, false) => (s, true)
+        | (s', true) => argFreezeLoop s' ns
+      else argFreezeLoop s ns
+
+/-- builtin_object.go:241 seal with the class hooks -/
+def argSealLoop (s : ArgState MProp) : List Name → ArgState MProp × Bool
+  | [] => (s, false)
+  | n :: ns =>
+    match argGetOwn s n with
+    | none => argSealLoop s ns
+    | some prop =>
+      if prop.configurable then
+        match argDefineOwn s n prop.configureOff with
+        | (_, false) => (s, true)
+        | (s', true) => argSealLoop s' ns
+      else argSealLoop s ns
+
+def argStep (s : ArgState MProp) : AOp → ArgState MProp × Outcome × List Call
+  | .param i v => ({ s with env := s.env.set i v }, .ok, [])
+  | .put n v => let r := argPut s n v; (r.1, .ok, r.2)
+  | .del n => let r := argDelete s n; (r.1, .bool r.2, [])
+  | .defn n d =>
+    match toPropertyDescriptor d with
+    | none => (s, .typeError, [])
+    | some desc =>
+      match argDefineOwn s n desc with
+      | (_, false) => (s, .typeError, [])
+      | (s', true) => (s', .ok, [])
+  | .freeze =>
+    match argFreezeLoop s (akeys s.o.props) with
+    | (s', true) => (s', .typeError, [])
+    | (s', false) => ({ s' with o := { s'.o with ext := false } }, .ok, [])
+  | .seal =>
+    match argSealLoop s (akeys s.o.props) with
+    | (s', true) => (s', .typeError, [])
+    | (s', false) => ({ s' with o := { s'.o with ext := false } }, .ok, [])
+  | .preventExt => ({ s with o := { s.o with ext := false } }, .ok, [])
+
+def argObserveName (s : ArgState MProp) (n : Name) : NameObs :=
+  let own := argGetOwn s n
+  { get := argGet s n
+    has := (alookup n s.o.props).isSome
+    own := (alookup n s.o.props).isSome
+    enum := match alookup n s.o.props with | some p => p.enumerable | none => false
+    desc := match own with | some p => fromPropertyDescriptor p | none => .none }
+
+def argObserve (s : ArgState MProp) (out : Outcome) : AObs :=
+  { out := out
+    env := s.env
+    ext := s.o.ext
+    isSealed := if s.o.ext then false else s.o.props.all (fun kp => !kp.2.configurable)
+    isFrozen := if s.o.ext then false else s.o.props.all (fun kp => !(kp.2.configurable || kp.2.writable))
+    names := enumerate s.o true
+    per := argNames.map (argObserveName s) }
+
+def argRun (s : ArgState MProp) : List AOp → List (AObs × List Call)
+  | [] => []
+  | op :: ops =>
+    let r := argStep s op
+    (argObserve r.1 r.2.1, r.2.2) :: argRun r.1 ops
+
+/-! ### global bindings (cmpl_evaluate.go:80-110 cmplFunctionDeclaration / cmplVariableDeclaration,
+    stash.go:60-95 objectStash) – a third small history language
+
+  One global name (name 0 of the object `g` = the global object, nothing of that name inherited).
+  Every operation is a separate program (a separate `Run`), so declaration binding instantiation
+  (ES5 §10.5) happens per operation. -/
+
+inductive GOp
+  | assign (v : Val)            -- NAME = v            (identifier assignment, sloppy)
+  | varDecl (eval : Bool)       -- var NAME            (in eval code when `eval`)
+  | varInit (v : Val)           -- var NAME = v
+  | funDecl (eval : Bool)       -- function NAME(){}   (in eval code when `eval`)
+  | del                         -- delete NAME
+  | defn (d : DescArg)          -- Object.defineProperty(this, 'NAME', d)
+deriving DecidableEq, Repr
+
+/-- value code of the function object a declaration binds (opaque) -/
+def fnVal : Val := 997
+
+/-- stash.go:66 objectStash.createBinding: defineProperty(name, value, 0o111 | 0o110, false) -/
+def gCreate (g : MObj) (deletable : Bool) (v : Val) : MObj :=
+  (defineOwn g 0 ⟨.val v, ⟨.on, .on, if deletable then .on else .off⟩⟩).getD g
+
+/-- stash.go:77 objectStash.setBinding = object.put(name, value, false) -/
+def gSet (g : MObj) (v : Val) : MObj × List Call :=
+  let r := put [g] 0 0 v false
+  (r.1.headD g, r.2.2)
+
+def gHas (g : MObj) : Bool := (alookup 0 g.props).isSome
+
+def gStep (g : MObj) : GOp → MObj × Outcome × List Call
+  | .assign v =>
+    -- stash.go:81 setValue: createBinding(name, true, value) when there is no binding, else setBinding
+    if !gHas g then (gCreate g true v, .ok, []) else let r := gSet g v; (r.1, .ok, r.2)
+  -- scope.eval (scope.go:11) is never set: `executionContext.eval` is false also in eval code
+  | .varDecl _eval => if !gHas g then (gCreate g false 0, .ok, []) else (g, .ok, [])
+  | .varInit v =>
+    let g1 := if !gHas g then gCreate g false 0 else g
+    let r := gSet g1 v
+    (r.1, .ok, r.2)
+  | .funDecl _eval =>
+    -- cmpl_evaluate.go:91-96: `// TODO 10.5.5.e`: an existing binding is only assigned to
+    if !gHas g then (gCreate g false fnVal, .ok, []) else let r := gSet g fnVal; (r.1, .ok, r.2)
+  | .del =>
+    let r := delete [g] 0 0 false
+    (r.1.headD g, r.2.1, [])
+  | .defn d =>
+    let r := step [g] (.defn 0 0 d)
+    (r.1.headD g, r.2.1, [])
+
+def gObserve (g : MObj) : NameObs := observeName [g] 0 g 0
+
+def gRun (g : MObj) : List GOp → List (Outcome × List Call × NameObs)
+  | [] => []
+  | op :: ops =>
+    let r := gStep g op
+    (r.2.1, r.2.2, gObserve r.1) :: gRun r.1 ops
+
 end OttoVerif.C07
